@@ -45,12 +45,14 @@ fn play_prefix(p: &mut Player, steps: &[Value], out: &mut Vec<Value>, book: &mut
     }
 }
 
+/// three more blocks after the recovery.  Their call data is unlike anything the generator produces: an earlier INVALID
+/// transaction with the same sender, target and data would share its hash (known finding D14) and be mistaken for a crash effect
 fn tail_steps(k: u64) -> Vec<Value> {
     let mut v = Vec::new();
     for b in 0..3u64 {
         let hash = format!("h{}", 9000 + 10 * k + b);
         let ts = 9000 + b;
-        v.push(json!({"op": "tx", "via": "call", "from": "s1", "to": "dead", "ops": [{"op": "sstore", "s": 1, "v": (b + 1)}],
+        v.push(json!({"op": "tx", "via": "call", "from": "s1", "to": "dead", "ops": [{"op": "sstore", "s": 9, "v": (200 + b)}, {"op": "log", "t": [4, 4, 4, 4]}],
                       "insc": format!("tail{}_{}", k, b), "idx": 0, "hash": hash, "ts": ts, "gas": "ample", "txid": "zero"}));
         v.push(json!({"op": "tx", "via": "deposit", "holder": "s1", "ticker": "ordi", "amt": 1, "insc": format!("taild{}_{}", k, b), "idx": 1, "hash": hash, "ts": ts}));
         v.push(json!({"op": "finalise", "ts": ts, "hash": hash, "count": 2}));
